@@ -129,6 +129,8 @@ def _extract_nodes_and_run_space(
     if isinstance(config, Mapping):
         run_space = config.get("run_space")
         pipeline = config.get("pipeline")
+        if run_space is None and isinstance(pipeline, Mapping):
+            run_space = pipeline.get("run_space")
         if isinstance(pipeline, Mapping):
             nodes = pipeline.get("nodes", [])
         else:
@@ -155,7 +157,14 @@ def _normalize_run_space(value: Any) -> Any:
 
 
 def _compute_run_space_spec_id(run_space: Mapping[str, Any]) -> str:
-    normalized = _normalize_run_space(run_space)
+    # The identity is defined over the parsed configuration (defaults applied,
+    # values normalised), the representation the runtime hashes for the trace.
+    from dataclasses import asdict
+    from semantiva.configurations.load_pipeline_from_yaml import (
+        _parse_run_space_block,
+    )
+
+    normalized = _normalize_run_space(asdict(_parse_run_space_block(run_space)))
     payload = json.dumps(normalized, separators=(",", ":"), ensure_ascii=False).encode(
         "utf-8"
     )
